@@ -9,7 +9,7 @@ Tie: the real stacks over the real Client / Server / Incomer, whose sockets are 
 Oracle (independent of the model): bytes accepted by a connection's socket are always a prefix of what was queued
      for it, accepted + pending = queued, pending drains when the socket accepts; received packets + buffer = bytes
      delivered, in order.
-The tree this check is meant for: /repo + fixes D21, D21b, D21c."""
+The tree this check is meant for: /repo + fixes D21, D21b, D21c, D21d."""
 import errno, itertools
 import core
 
@@ -108,6 +108,43 @@ class Shim:
         return self._factory()
 
 
+class StreamHandlerDouble:
+    """stands for the handler of a ClientStreamStack used directly (any stream transport): send returns the number of
+    bytes taken (0 = blocked), receive returns bytes or None"""
+    def __init__(self):
+        self.opened = False
+        self.ha = SRV_HA
+        self.sends, self.recvs = [], []
+        self.wire = bytearray()
+        self.delivered = bytearray()
+
+    def reopen(self):
+        self.opened = True
+        return True
+
+    def close(self): self.opened = False
+
+    def send(self, data):
+        o = self.sends.pop(0) if self.sends else "w"
+        if o[0] == "a":
+            k = min(int(o[1:]), len(data))
+            self.wire += bytes(data[:k])
+            return k
+        if o == "w":
+            return 0
+        raise OSError(OTHER[len(self.wire) % len(OTHER)], "other")
+
+    def receive(self):
+        o = self.recvs.pop(0) if self.recvs else "w"
+        if o[0] == "d" and o != "d-":
+            b = unhx(o[1:])
+            self.delivered += b
+            return b
+        if o == "w":
+            return None
+        raise OSError(OTHER[len(self.delivered) % len(OTHER)], "other")
+
+
 def ca_of(n):
     return ("127.0.0.1", 6000 + n)
 
@@ -125,7 +162,8 @@ class CHECK(core.Check):
     N_QUICK = 1200
     N_THOROUGH = 30000
     N_SEARCH = 3000
-    RULE = ("call sequences on a real TcpClientStack (kind cli) or TcpServerStack with 1..3 connections (kind srv): "
+    RULE = ("call sequences on a real TcpClientStack (kind cli), a ClientStreamStack over a plain handler double (kind cs: the "
+            "base Stack loops) or TcpServerStack with 1..3 connections (kind srv): "
             "transmit of 1..6 packets of 0..6 bytes, service calls whose every socket send/recv is answered from a script "
             "(accept k bytes, would block, connection lost, ~5% other error = malformed; data chunks, close), arbitrary "
             "interleavings of serviceTxPkts / serviceTxesAllIx / serviceReceivesAllIx / serviceReceives / serviceConnects; "
@@ -134,7 +172,7 @@ class CHECK(core.Check):
             "{a1,a2,a9,w,l} for two service calls (quick: first call only). Non-trivial = at least one partial send or "
             "would-block and at least 2 bytes delivered in some direction; distinct by call sequence.")
     TRUSTED = ["correspondence: real stacking.TcpClientStack/TcpServerStack over real clienting.Client, serving.Server/Incomer "
-               "(tree + fixes D21, D21b, D21c) with socket doubles vs Lean driver 'streamstack'; compared after every call: bytes "
+               "(tree + fixes D21, D21b, D21c, D21d) with socket doubles vs Lean driver 'streamstack'; compared after every call: bytes "
                "accepted by each double, .txbs/.txPkts/.txes, .rxbs/.rxPkts, connected/cutoff, exception class",
                "socket doubles (send/recv/accept answered from scripts; exhausted script = would block); the kernel's TCP is "
                "not modelled; loopback runs are extra evidence only (extra_evidence.loopback)",
@@ -270,13 +308,28 @@ class CHECK(core.Check):
             ops += ["P", "X" + ";".join("%d=a64,a64,a64,a64,a64,a64,a64,a64" % ca for ca in range(1, ncon + 1)), "S"]
         return {"kind": "srv", "parser": "framed" if framed else "whole", "ops": ops}
 
+    def _cs_case(self, rng, fail_ok=True):
+        """a ClientStreamStack over a plain handler: the client generator without connection loss"""
+        c = self._cli_case(rng, fail_ok)
+        ops = ["c"]
+        for t in c["ops"]:
+            if t == "c":
+                continue
+            if t[0] in "POR":
+                t = t[0] + ",".join(x for x in t[1:].split(",") if x not in ("l", "d-"))
+            ops.append(t)
+        return {"kind": "cs", "parser": c["parser"], "ops": ops}
+
     def generate(self, rng, n, tier):
         for _ in range(n):
-            yield self._cli_case(rng) if rng.random() < 0.45 else self._srv_case(rng)
+            r = rng.random()
+            yield self._cli_case(rng) if r < 0.35 else self._cs_case(rng) if r < 0.5 else self._srv_case(rng)
 
     def search(self, rng, n, tier):
         for _ in range(n):
-            yield self._cli_case(rng, False) if rng.random() < 0.45 else self._srv_case(rng, False)
+            r = rng.random()
+            yield (self._cli_case(rng, False) if r < 0.35 else self._cs_case(rng, False) if r < 0.5
+                   else self._srv_case(rng, False))
 
     def exhaustive(self, tier):
         answers = ["a1", "a2", "a9", "w", "l"]
@@ -296,6 +349,8 @@ class CHECK(core.Check):
         try:
             if case["kind"] == "cli":
                 return self._impl_cli(case)
+            if case["kind"] == "cs":
+                return self._impl_cs(case)
             if case["kind"] == "srv":
                 return self._impl_srv(case)
         except (KeyError, IndexError, ValueError) as ex:
@@ -370,6 +425,56 @@ class CHECK(core.Check):
             return out or ["-"]
         finally:
             clienting.socket = saved
+
+    def _impl_cs(self, case):
+        """ClientStreamStack used directly over a handler double: Stack.serviceTxPkts / serviceReceives (the base loops)
+        with ClientStreamStack._serviceOneTxPkt / _serviceOneReceived"""
+        from ioflo.aio.proto import stacking, packeting
+        framed = case["parser"] == "framed"
+
+        class FramedCS(stacking.ClientStreamStack):
+            def parserize(self, raw):
+                if not raw or len(raw) < 1 + raw[0]:
+                    return None
+                return packeting.Packet(stack=self, packed=raw[:1 + raw[0]])
+
+        h = StreamHandlerDouble()
+        stack = (FramedCS if framed else stacking.ClientStreamStack)(handler=h)
+        if not case["ops"] or case["ops"][0] != "c" or "c" in case["ops"][1:]:
+            raise ValueError("bad-op")       # the handler is opened by Stack.__init__: `c` comes first, once
+        out = []
+        for tok in case["ops"]:
+            k, arg = tok[0], tok[1:]
+            h.sends, h.recvs = [], []
+            if any(x in ("l", "d-") for x in arg.split(",")):
+                raise ValueError("bad-op")   # a plain handler has no connection-loss notion
+            err = "ok"
+            try:
+                if tok == "c":
+                    stack.reopen()
+                elif k == "t":
+                    stack.transmit(packeting.Packet(stack=stack, packed=unhx(arg)))
+                elif k == "P":
+                    h.sends = self._script(arg)
+                    stack.serviceTxPkts()
+                elif k == "O":
+                    h.sends = self._script(arg)
+                    stack.serviceTxPktsOnce()
+                elif k == "R":
+                    h.recvs = self._script(arg)
+                    stack.serviceReceives()
+                else:
+                    raise ValueError("bad-op")
+            except ValueError as ex:
+                if "bad-op" in str(ex):
+                    raise
+                err = self._err(ex)
+            except Exception as ex:
+                err = self._err(ex)
+            out.append("%s wire=%s txbs=%s q=%s rxbs=%s rx=%s dl=%s c=%d x=0" % (
+                err, hx(h.wire), hx(stack.txbs), ",".join(hx(p.packed) for p in stack.txPkts),
+                hx(stack.rxbs), ",".join(hx(p.packed) for p in stack.rxPkts), hx(h.delivered), bool(h.opened)))
+        return out or ["-"]
 
     def _impl_srv(self, case):
         import socket as real_socket
@@ -448,7 +553,8 @@ class CHECK(core.Check):
 
     # ---- model
     def requests(self, case):
-        return ["%s repaired %s %s" % (case["kind"], case["parser"], " ".join(case["ops"]))]
+        kind = "cli" if case["kind"] == "cs" else case["kind"]     # same loops, guard `handler.opened`
+        return ["%s repaired %s %s" % (kind, case["parser"], " ".join(case["ops"]))]
 
     def model_post(self, case, replies):
         return replies[0].split(" | ")
@@ -479,7 +585,7 @@ class CHECK(core.Check):
             return "implementation answered %d of %d calls" % (len(out), len(case["ops"]))
         if not self._no_fail(case):
             return None
-        return self._oracle_cli(case, out) if case["kind"] == "cli" else self._oracle_srv(case, out)
+        return self._oracle_cli(case, out) if case["kind"] in ("cli", "cs") else self._oracle_srv(case, out)
 
     def _oracle_cli(self, case, out):
         queued = b""
